@@ -43,7 +43,11 @@ func mustLoad(repo string) *Prog {
 		fmt.Fprintln(os.Stderr, "contracts:", err)
 		os.Exit(2)
 	}
-	loadJSON("/verif/known_findings.json", &P.findings)
+	kf := "/verif/known_findings.json"
+	if e := os.Getenv("VERIF_FINDINGS"); e != "" {
+		kf = e // development: try a findings file before committing it
+	}
+	loadJSON(kf, &P.findings)
 	fmt.Fprintf(os.Stderr, "loaded %s in %.1fs; %d contracts\n", repo, time.Since(t0).Seconds(), len(P.contracts))
 	return P
 }
@@ -195,8 +199,10 @@ func cmdVerify(args []string) {
 			t0 := time.Now()
 			res := P.verifyFunc(j.fn, j.c, j.cfg, j.has, j.extra...)
 			gen := time.Since(t0).Seconds()
-			for _, o := range res.Obls {
-				o.SMT = EmitSMT(o.Hyps, o.Goal, "", o.Cover, o.Watch)
+			if *nosolve {
+				for _, o := range res.Obls {
+					os.WriteFile(oblFile(*work, o), []byte(EmitSMT(o.Hyps, o.Goal, "", o.Cover, o.Watch)), 0o644)
+				}
 			}
 			if !*nosolve {
 				solveAll(res.Obls, *work, *timeout, runtime.NumCPU())
